@@ -70,4 +70,30 @@ def tupleLt (a b : Nat × Nat) : Bool := a.1 < b.1 || (a.1 == b.1 && a.2 < b.2)
 /-- `s.add(x)` for a set kept as the list of its elements in order of insertion -/
 def setAdd {α} [BEq α] (s : List α) (x : α) : List α := if s.contains x then s else s ++ [x]
 
+/-- `a - b` on non-negative ints where the typing (`Nat`) needs the difference to be non-negative again: Python would go on
+    with a negative int; that is outside what the translation represents and is reported as an explicit translator fault -/
+def sub (a b : Nat) : M Nat := if b ≤ a then pure (a - b) else throw (.fault "translator:negative")
+
+/-- `a % b` on non-negative ints: ZeroDivisionError for `b = 0` -/
+def mod (a b : Nat) : M Nat := if b = 0 then throw (.fault "ZeroDivisionError") else pure (a % b)
+
+/-- `a, b = l` for a list `l`: ValueError unless it has exactly two elements -/
+def unpack2 {α} (l : List α) : M (α × α) :=
+  match l with
+  | [a, b] => pure (a, b)
+  | _ => throw (.fault "ValueError")
+
+/-- `k in d` for a dict kept as the list of its items (insertion order, pairwise different keys) -/
+def dictHas {κ β} [BEq κ] (d : List (κ × β)) (k : κ) : Bool := (d.lookup k).isSome
+
+/-- `d[k]`: KeyError for a missing key -/
+def dictGet {κ β} [BEq κ] (d : List (κ × β)) (k : κ) : M β :=
+  match d.lookup k with
+  | some x => pure x
+  | none => throw (.fault "KeyError")
+
+/-- `d[k] = x`: the value of an existing key is replaced (the item keeps its place), a new key is appended -/
+def dictSet {κ β} [BEq κ] (d : List (κ × β)) (k : κ) (x : β) : List (κ × β) :=
+  if dictHas d k then d.map (fun p => if p.1 == k then (p.1, x) else p) else d ++ [(k, x)]
+
 end Dsd.Py
